@@ -150,11 +150,22 @@ impl ConnectionManager {
                     }
                 },
                 Some(connecting_output) = self.pending_connections.join_next() => {
-                    self.handle_connecting_result(connecting_output.unwrap());
+                    match connecting_output {
+                        Ok(connecting_output) => self.handle_connecting_result(connecting_output),
+                        // The task was cancelled because the runtime is shutting down
+                        Err(e) if e.is_cancelled() => {}
+                        // If a task panics, just propagate it
+                        Err(e) => std::panic::resume_unwind(e.into_panic()),
+                    }
                 },
                 Some(connection_handler_output) = self.connection_handlers.join_next() => {
-                    // If a task panics, just propagate it
-                    connection_handler_output.unwrap();
+                    match connection_handler_output {
+                        Ok(()) => {}
+                        // The task was cancelled because the runtime is shutting down
+                        Err(e) if e.is_cancelled() => {}
+                        // If a task panics, just propagate it
+                        Err(e) => std::panic::resume_unwind(e.into_panic()),
+                    }
                 },
             }
         }
@@ -179,12 +190,21 @@ impl ConnectionManager {
         self.pending_connections.shutdown().await;
 
         // Wait for all connection handlers to terminate
-        while self.connection_handlers.join_next().await.is_some() {}
-        // At this point we shouldn't have any active peers
-        assert!(
-            self.active_peers.inner().connections.is_empty(),
-            "ActivePeers should be empty after all connection handlers have terminated"
-        );
+        while let Some(result) = self.connection_handlers.join_next().await {
+            if let Err(e) = result {
+                if e.is_panic() {
+                    // If a task panics, just propagate it
+                    std::panic::resume_unwind(e.into_panic());
+                }
+            }
+        }
+        // Every handler removes its own peer when it terminates, so at this point we shouldn't
+        // have any active peers. A handler that was cancelled (the runtime is shutting down)
+        // never got to: remove what is left on its behalf so subscribers still see the peer lost.
+        for peer_id in self.active_peers.peers() {
+            self.active_peers
+                .remove(&peer_id, DisconnectReason::LocallyClosed);
+        }
 
         // wait for the endpoint to be idle
         self.endpoint
